@@ -156,14 +156,17 @@ func alphabet(thorough bool) []Op {
 	for _, p := range zeroDefaults {
 		ops = append(ops, Op{Kind: "pathdefaults", Payload: p, Leaf: leaf})
 	}
-	// a payload refused by the decoder AFTER a valid field has been decoded (the unknown field comes second in the
-	// text): the request must fail as a whole. For patch, global and pathdefaults a refused payload that carries
-	// nothing else is invisible when a handler goes on after the refusal (an empty patch changes nothing); add and
-	// replace show it with {"unknownField":1} alone. Failing edits have no successor: leaf or not is the same.
+	// a payload refused by the DECODER (a value of the wrong type) that also carries a valid field: the request must
+	// fail as a whole. For patch, global and pathdefaults a refused payload that carries nothing else is invisible
+	// when a handler goes on after the refusal (an empty patch changes nothing); add and replace show it with
+	// {"unknownField":1} alone. An unknown field is refused before anything is decoded, a wrong type while the
+	// fields are being decoded (in no fixed order: on a broken tree the valid field is applied in some states and
+	// not in others; on a correct one the answer is always a failure that changes nothing). Failing edits have no
+	// successor: leaf or not is the same.
 	ops = append(ops,
-		Op{Kind: "patch", Name: "p1", Payload: `{"maxReaders":2,"unknownField":1}`, Leaf: leaf},
-		Op{Kind: "global", Payload: `{"logLevel":"debug","unknownField":1}`, Leaf: leaf},
-		Op{Kind: "pathdefaults", Payload: `{"maxReaders":3,"unknownField":1}`, Leaf: leaf})
+		Op{Kind: "patch", Name: "p1", Payload: `{"maxReaders":2,"record":"x"}`, Leaf: leaf},
+		Op{Kind: "global", Payload: `{"logLevel":"debug","rtsp":"x"}`, Leaf: leaf}, // the zero value left behind by the refused field is valid
+		Op{Kind: "pathdefaults", Payload: `{"maxReaders":3,"record":"x"}`, Leaf: leaf})
 	// edits on the names that only some base configurations declare (bases.go); they come after everything else so
 	// that the indices of the other edits do not depend on them. all_others is an alias of the regexp ~^.*$.
 	for _, n := range extraNames {
